@@ -113,6 +113,22 @@ def scale_cases(ctx, rng, lits, descr):
             ctx.distinct.add(("scale", tuple(xs), str(cf), str(sf), ddof))
         if i < 2:
             ctx.sample(rp)
+    # a large offset relative to the spread: the statistics are those of the centred data (no cancellation)
+    for off in (1e4, 1e6, 1e8, 1.7e9, -3e10):
+        for n in (3, 5, 12):
+            base = [float(rng.choice([0, 0.25, 0.5, 1, 1.5, 2, 3, 5])) + 0.125 * k for k in range(n)]
+            xs = np.array([off + b for b in base])
+            ctx.oracle_runs += 1
+            for ddof in (0, 1):
+                st = {}
+                o = np.asarray(scale(xs, ddof=ddof, _state=st), dtype=float)
+                ref = (np.array(base) - np.mean(base)) / math.sqrt(sum((b - np.mean(base)) ** 2 for b in base) / (n - ddof))
+                if not np.isfinite(o).all() or not np.allclose(o, ref, rtol=1e-5, atol=1e-5):
+                    ctx.fail(f"scale of {off!r} + {base}: {o.tolist()} instead of {ref.tolist()} (the spread, not the offset, determines the result)",
+                             {"kind": "scale", "x": xs.tolist(), "ddof": ddof})
+            c = np.asarray(center(xs, _state={}), dtype=float)
+            if not np.allclose(c, np.array(base) - np.mean(base), rtol=1e-5, atol=1e-5 * max(1.0, abs(off) * 1e-12)):
+                ctx.fail(f"center of {off!r} + {base}: {c.tolist()}", {"kind": "scale", "x": xs.tolist()})
     # magnitudes, 2-D input and sparse input on the implementation only
     import scipy.sparse as sps
     for e in (-100, -30, 0, 30, 100):
